@@ -10,9 +10,15 @@
 (* memory (send it) - chosen nondeterministically, as the memory budget     *)
 (* decides in the code.  The reader handles one channel item at a time and, *)
 (* for a marker, waits on the spill pool before looking at the channel.     *)
+(* File creation (sp_w_p2a, no lock) and publication to `files` (sp_w_p2b)  *)
+(* are separate actions, as in push_batch and in SpillPool.tla: with them   *)
+(* merged, the small repair "only the newest file goes back to              *)
+(* open_write_files" looks sufficient, which it is not (a writer returning  *)
+(* its file between another writer's p2a and p2b still sees itself newest). *)
 (* FIXED = FALSE is the code as it is: TLC finds the deadlock.              *)
-(* FIXED = TRUE models the proposed repair (only the newest file goes back  *)
-(* to open_write_files, an older one is finished when returned).            *)
+(* FIXED = TRUE is a repair that holds at this grain: an older file is      *)
+(* finished when returned AND every idle older file is retired when a new   *)
+(* file is published (a change of the pool's file policy - see the finding).*)
 (***************************************************************************)
 EXTENDS Integers, Sequences, FiniteSets, TLC
 
@@ -41,9 +47,19 @@ Choose(w) ==
      \/ IF openW # <<>>
           THEN /\ wf' = [wf EXCEPT ![w] = Head(openW)] /\ openW' = Tail(openW)
                /\ wpc' = [wpc EXCEPT ![w] = "append"] /\ UNCHANGED <<files, nf>>
-          ELSE /\ nf' = nf + 1 /\ wf' = [wf EXCEPT ![w] = nf + 1] /\ files' = Append(files, nf + 1)
-               /\ wpc' = [wpc EXCEPT ![w] = "append"] /\ UNCHANGED openW
+          ELSE /\ nf' = nf + 1 /\ wf' = [wf EXCEPT ![w] = nf + 1] /\ UNCHANGED files
+               /\ wpc' = [wpc EXCEPT ![w] = "publish"] /\ UNCHANGED openW
   /\ UNCHANGED <<wsent, data, fin, chan, rpc, cur, nread, got>>
+
+\* sp_w_p2b: the created file is published to `files` in a separate lock region
+Publish(w) ==
+  /\ wpc[w] = "publish"
+  /\ files' = Append(files, wf[w])
+  /\ wpc' = [wpc EXCEPT ![w] = "append"]
+  /\ IF FIXED THEN /\ fin' = [f \in 1..MaxF |-> fin[f] \/ f \in {openW[k] : k \in 1..Len(openW)}]
+                   /\ openW' = <<>>
+     ELSE UNCHANGED <<openW, fin>>
+  /\ UNCHANGED <<wf, wsent, data, nf, chan, rpc, cur, nread, got>>
 
 \* push_batch: append + flush; then give the file back
 Append_(w) ==
@@ -54,7 +70,7 @@ Append_(w) ==
 
 Return(w) ==
   /\ wpc[w] = "return"
-  /\ IF FIXED /\ files[Len(files)] # wf[w]
+  /\ IF FIXED /\ files # <<>> /\ files[Len(files)] # wf[w]
        THEN fin' = [fin EXCEPT ![wf[w]] = TRUE] /\ UNCHANGED openW      \* repair: an older file is finished
        ELSE openW' = Append(openW, wf[w]) /\ UNCHANGED fin
   /\ wpc' = [wpc EXCEPT ![w] = "send_spill"]
@@ -93,7 +109,7 @@ RSpill ==
   /\ UNCHANGED <<wpc, wf, wsent, files, openW, data, fin, nf, chan>>
 
 Done == AllSent /\ chan = <<>> /\ rpc = "chan"
-Next == \/ \E w \in Writers : Choose(w) \/ Append_(w) \/ Return(w) \/ Send(w)
+Next == \/ \E w \in Writers : Choose(w) \/ Publish(w) \/ Append_(w) \/ Return(w) \/ Send(w)
         \/ Finalize \/ RChan \/ RSpill
         \/ (Done /\ UNCHANGED vars)
 Spec == Init /\ [][Next]_vars /\ WF_vars(Next)
